@@ -1901,6 +1901,16 @@ impl Node {
         setup: ChannelSetup,
         holder_shutdown_key_path: &DerivationPath,
     ) -> Result<Channel, Status> {
+        // The funding output index is 16 bits wide in BOLT-2 and in LDK's channel parameters;
+        // a wider index would be truncated when the commitment transactions are built, and
+        // the signatures would then be for a transaction spending another outpoint.
+        if setup.funding_outpoint.vout > u16::MAX as u32 {
+            return Err(invalid_argument(format!(
+                "funding output index {} does not fit in 16 bits",
+                setup.funding_outpoint.vout
+            )));
+        }
+
         let mut tracker = self.get_tracker();
         let validator = self.validator_factory().make_validator(
             self.network(),
